@@ -111,3 +111,48 @@ func VerifH_C09_ScalarOperandIntact() {
 		vAssert(s2.Cmp(big.NewInt(v)) == 0, "Mul-leaves-the-big.Int-operand-unchanged")
 	}
 }
+
+// Unary operations and scalar operations into a distinct output: the input (data, level, scale, every metadata field)
+// is unchanged afterwards, the output's metadata is its own (changing it does not reach the input), and an output
+// that was allocated larger or held other data carries no residue: same result as into a fresh output.
+func VerifH_C09_UnaryAndScalarOps() {
+	c, eval := vSetup()
+	params := c.Params
+	level := params.MaxLevel()
+	r := params.RingQ().AtLevel(level)
+	a := vAtomCiphertext(c, 1, level, "a", 3)
+	keep := vCopyCt(a)
+	// Rescale into distinct outputs (fresh at the lower level; previously larger and holding other data)
+	fresh := NewCiphertext(params, 1, level-1)
+	vAssert(eval.Rescale(a, fresh) == nil, "Rescale-into-fresh-output-no-error")
+	vCtEq(r, a, keep, "Rescale-leaves-its-input-unchanged")
+	dirty := vAtomCiphertext(c, 1, level, "junk", 9)
+	vAssert(eval.Rescale(a, dirty) == nil, "Rescale-into-used-output-no-error")
+	vCtEq(r, a, keep, "Rescale-into-used-output-leaves-its-input-unchanged")
+	vCtEq(r, dirty, fresh, "Rescale-result-independent-of-previous-output-content")
+	vAssert(a.MetaData != fresh.MetaData && a.MetaData != dirty.MetaData, "Rescale-output-has-its-own-metadata")
+	fresh.Scale = params.NewScale(11)
+	fresh.IsBatched = !fresh.IsBatched
+	vCtEq(r, a, keep, "changing-the-metadata-of-the-Rescale-output-does-not-reach-the-input")
+	// scalar operations into a larger, used output
+	low := vAtomCiphertext(c, 1, level-1, "l", 3)
+	keepLow := vCopyCt(low)
+	for _, op := range []string{"Mul", "Add", "Sub"} {
+		run := func(o *rlwe.Ciphertext) error {
+			switch op {
+			case "Mul":
+				return eval.Mul(low, uint64(5), o)
+			case "Add":
+				return eval.Add(low, uint64(5), o)
+			}
+			return eval.Sub(low, uint64(5), o)
+		}
+		f := NewCiphertext(params, 1, level-1)
+		vAssert(run(f) == nil, op+"-scalar-into-fresh-output-no-error")
+		d := vAtomCiphertext(c, 1, level, "junk"+op, 9)
+		vAssert(run(d) == nil, op+"-scalar-into-larger-used-output-no-error")
+		vCtEq(r, d, f, op+"-scalar-result-independent-of-previous-output-content-and-size")
+		vCtEq(r, low, keepLow, op+"-scalar-leaves-its-input-unchanged")
+	}
+	vCover("C09-unary-reached")
+}
